@@ -13,6 +13,7 @@ import random
 import struct
 from typing import Any, Dict, Iterator, List
 
+import core
 from core import Case, Prop, SelfCheckFailure, exc_category, DOCUMENTED
 from gen import hx, unhx, pool, rbytes
 
@@ -42,7 +43,8 @@ def _views(f) -> Dict[str, Any]:
 
 def _coherent(f, what: str):
     """the statement at one field object, on the real code alone"""
-    v, n, raw = int(f), len(f), bytes(f.as_bytes)
+    # (as_bytes is read twice; were it a mutable buffer, the first one is modified by the caller in between)
+    v, n, raw = int(f), len(f), core.pack_stable(f, what + ".as_bytes", packer=lambda: f.as_bytes)
     if len(raw) != n:
         raise SelfCheckFailure(f"{what}: len(as_bytes)={len(raw)} but len(field)={n}")
     if int.from_bytes(raw, "big") != v:
@@ -74,6 +76,10 @@ def _roundtrip(f, sfx: bytes = b"\xa5\x5a"):
     _same(f, ByteFieldGenerator.from_int(n, int(f)), "ByteFieldGenerator.from_int(len, int)")
 
 
+# ~330 000 fields are decoded from octets: the probe looks back one object only (run time)
+_ISO = core.Isolation(keep=1)
+
+
 def op_bf_new(a):
     f = UnsignedByteField(a["value"], a["width"])
     _coherent(f, "UnsignedByteField(value, width)")
@@ -97,6 +103,7 @@ def op_bf_sub(a):
 def op_bf_from_bytes(a):
     raw = unhx(a["raw"])
     f = UnsignedByteField.from_bytes(raw)
+    _ISO.check("UnsignedByteField", f, _views)    # fields decoded by earlier calls still show what they showed then
     _coherent(f, "from_bytes")
     if bytes(f.as_bytes) != raw:
         raise SelfCheckFailure("from_bytes(raw).as_bytes != raw")
@@ -106,6 +113,7 @@ def op_bf_from_bytes(a):
 def op_bf_from_un(a):
     raw = unhx(a["raw"])
     f = getattr(SUB[a["width"]], READER[a["width"]])(raw)
+    _ISO.check("UnsignedByteField", f, _views)
     _coherent(f, READER[a["width"]])
     return _views(f)
 
@@ -119,6 +127,7 @@ def op_bf_gen_int(a):
 def op_bf_gen_bytes(a):
     raw = unhx(a["raw"])
     f = ByteFieldGenerator.from_bytes(a["width"], raw)
+    _ISO.check("UnsignedByteField", f, _views)
     _coherent(f, "ByteFieldGenerator.from_bytes")
     if bytes(f.as_bytes) != raw[:a["width"]]:
         raise SelfCheckFailure("generator did not take the first `width` octets")
@@ -163,6 +172,8 @@ def op_bf_seq(a):
                 raise
             results.append(cat)
         views.append(_views(f))
+        if i < 8:
+            core.pack_stable(f, f"as_bytes after step {i}", packer=lambda: f.as_bytes)
         # equality / hashing stay in step with the views after every assignment
         g = UnsignedByteField(int(f), len(f))
         if not (f == g) or not (g == f):
@@ -480,6 +491,16 @@ class C20(Prop):
             w = rng.choice([4, 8])
             n = rng.choice([w, w, w, w + 1, w + 5, w - 1, rng.randint(0, 12)])
             yield from bytes_cases(rbytes(rng, n), "octets-random", readers=[w])
+
+        # --- back-to-back decodes of octet strings that differ in width and in every bit (a field decoded earlier
+        #     must not follow a later decode) --------------------------------------------------------------------
+        for _ in range(3000 if thorough else 300):
+            w1 = rng.choice(VWIDTHS)
+            w2 = rng.choice([w for w in VWIDTHS if w != w1])
+            raw1 = rbytes(rng, w1)
+            raw2 = bytes(x ^ 0xFF for x in (raw1 * 8)[:w2])
+            for raw in (raw1, raw2, raw1):
+                yield from bytes_cases(raw, "complement-pair", readers=[len(raw)])
 
         # --- equality and hashing -----------------------------------------------------------
         small = [(w, v) for w in WIDTHS for v in (0, 1, 2, 255, 256, 257, 65535, 65536, (1 << 32) - 1, 1 << 32,
